@@ -106,7 +106,7 @@ PROPS['C07'] = dict(
     groups=[dict(template='c07_generator.rs')],
     input_search=True,
     claim="MultiTrainDataGenerator::next returns Some((x, k)) only as the head of source k's remaining items, pops exactly that item, leaves every other source untouched, returns None only when all sources are exhausted without consuming anything, preserves the representation invariant and terminates (measure: number of unfinished sources); next_idx: sequential stays until finished then next source, interleaved = first unfinished source cyclically after the current one, weighted = some unfinished source; both terminate.",
-    not_covered=['weighted strategy is reproducible from the seed (determinism of ChaCha8Rng is assumed, not verified)', 'MultiTrainDataGenerator::new establishing the invariant'],
+    not_covered=['weighted strategy is reproducible from the seed (determinism of ChaCha8Rng is assumed, not verified)', 'ExactSizeIterator::len of a source == the number of items it still yields (assumed contract of the boxed iterator)'],
     assumptions=['iterator contract of the boxed sources (next pops the head; None iff empty, fused)', 'rand: sample returns an index of the weight vector; WeightedIndex::new succeeds on non-empty positive weights'],
     domain=['at least one source'],
     bounded_probe=dict(label='generator(public-API)', file='src/data/loading.rs', line=273,
@@ -182,7 +182,7 @@ PROPS['C01'] = dict(
     title='Byte and character tokenizers encode every character faithfully and losslessly',
     groups=[dict(template='c01_byte.rs'), dict(template='c01_char.rs')],
     claim='Character tokenizer: process_token_input yields exactly one token per character of every regular part (the code point itself, or the unknown token when the character has more than one code point) and one token per special part; VocabTokenizer::tokenize (character tokenizer) = prefix ++ one id per token (vocabulary id, or the unknown id when the character is outside the alphabet / the special spelling is unknown) ++ suffix. Byte tokenizer: process_input yields exactly the UTF-8 bytes of every regular part as ids 0..255 and the single special id of every special part (for SOME split of the input that satisfies the assumed regex-split contract; with ignore_special_tokens the whole text is one regular part, so ids == bytes(text) and no error); tokenize = prefix ++ ids ++ suffix; de_tokenize spells exactly dec(ids), errors on an unknown special id, and is total on valid input; lemma: dec(ids_of(parts), keep) == utf8(text) for every split (round trip of the middle part).',
-    not_covered=['VocabTokenizer::de_tokenize (join_tokens / join_parts of the character tokenizer): the round trip of the character tokenizer over its alphabet is not proved; covered: one id per character, unknown id outside the alphabet, and the id maps of C04', 'the regex split itself (BaseTokenizer::split_input): assumed contract split_ok', "that the final decode of prefix/suffix ids is stripped: the statement's round trip is proved for the id stream of the text (middle part)"],
+    not_covered=['VocabTokenizer::de_tokenize (join_tokens / join_parts of the character tokenizer): the round trip of the character tokenizer over its alphabet is not proved; covered: one id per character, unknown id outside the alphabet, and the id maps of C04', 'regex::Regex::find_iter (matches non-empty, ordered, disjoint, on character boundaries, each in the pattern language) and that the pattern language is the set of special-token spellings (established by new_base_tokenizer, not a unit): assumed; BaseTokenizer::split_input itself is verified against these', "that the final decode of prefix/suffix ids is stripped: the statement's round trip is proved for the id stream of the text (middle part)"],
     assumptions=['BaseTokenizer::split_input: parts concatenate to the input, Special parts are special-token spellings, no parsing => one Regular part', 'CharString::new partitions the string (sum of character UTF-8 lengths == byte length)', 'UTF-8 encoding is injective and distributes over concatenation', 'R6 helper contracts (vt_extend_bytes, vt_chain3, vt_extend_full, vt_code_point_groups, vt_single_map, vt_full_ones, vt_extend_slice) = documented std semantics of the replaced iterator chains', 'representation invariant of the special vocabulary (maps mutually inverse, special ids >= 256) established by new_base_tokenizer'],
     domain=[],
     input_search=True,
